@@ -241,10 +241,13 @@ func (c *Client) buildChannel(ctx context.Context) (*ClientChannel, error) {
 		c.config.Node.Instance,
 	)
 	if err != nil {
+		// Release the connection of the failed attempt
+		_ = channel.Close()
 		return nil, fmt.Errorf("buildChannel: %w", err)
 	}
 
 	if ses.State != SessionStateEstablished {
+		_ = channel.Close()
 		return nil, fmt.Errorf("buildChannel: channel state is %v", ses.State)
 	}
 
